@@ -528,13 +528,26 @@ ROBUST = {
 }
 
 
+def check_enumeration_stages(chk) -> bool:
+    """Components, permutations, first-fit, product, de-duplication, early exit: fact level first (the whole list on every
+    order type of <= 4 arcs, checks/c01e.py), the pinned-form stage rules as the fallback.  True when decided at fact level."""
+    from checks import c01e
+
+    fi = chk.repo.func(MOD, "BpSeq.all_dot_brackets")
+    chk.note_function(fi)
+    if c01.fact_first(chk, "enumeration", fi.where, c01e.enumeration_fact(chk)):
+        return True
+    check_components(chk, fi)
+    check_permutation_greedy(chk, fi)
+    check_product(chk, fi)
+    return False
+
+
 def check_enumeration(chk) -> None:
     fi = chk.repo.func(MOD, "BpSeq.all_dot_brackets")
     chk.note_function(fi)
     c01.check_conflict_graph(chk, fi)
-    check_components(chk, fi)
-    check_permutation_greedy(chk, fi)
-    check_product(chk, fi)
+    check_enumeration_stages(chk)
 
 
 def run(chk) -> None:
@@ -552,8 +565,13 @@ def run(chk) -> None:
     c01.check_regions(chk)
     c01.check_stems(chk)
     c01.check_fill(chk)
-    for rule in ("components-walk", "greedy-perms", "greedy-earlier", "greedy-mark", "greedy-choice", "product", "conflict-predicate"):
-        chk.floor(rule, 1)
+    if not c01.decided(chk, "enumeration"):
+        for rule in ("components-walk", "greedy-perms", "greedy-earlier", "greedy-mark", "greedy-choice", "product"):
+            chk.floor(rule, 1)
+    else:
+        chk.floor("enumeration-fact", 1)
+    if not c01.decided(chk, "conflict-graph:BpSeq.all_dot_brackets"):
+        chk.floor("conflict-predicate", 1)
 
 
 MANIFEST_ENTRY = {
